@@ -47,10 +47,10 @@ func (C20) Assumptions() []string {
 func (C20) Components() map[string]string {
 	return map[string]string{
 		"pkg/ggql (Root.subscribe/Unsubscribe/AddEvent, ResolveExecutable, resolver)": "real, instrumented scratch copy (sync.Mutex -> cooperative VerifMutex wrapping a real sync.Mutex; verifAccess scheduling points)",
-		"caller goroutines":   "real goroutines, one runnable at a time, picked by the tape",
+		"caller goroutines":                "real goroutines, one runnable at a time, picked by the tape",
 		"subscribers / events / resolvers": "stub (harness)",
-		"race oracle":         "Go race detector (TSan) with hand-offs hidden by runtime.RaceDisable + deterministic vector clocks over lock events",
-		"linearizability":     "porcupine v1.3.0",
+		"race oracle":                      "Go race detector (TSan) with hand-offs hidden by runtime.RaceDisable + deterministic vector clocks over lock events",
+		"linearizability":                  "porcupine v1.3.0",
 	}
 }
 
@@ -275,8 +275,6 @@ func describeSubs(w *workload.SubWorld) []string {
 	}
 	return out
 }
-
-func subMatches(sb *workload.SimSub, topic string) bool { return sb.Topic == "" || sb.Topic == topic }
 
 // c20Analyse attributes logged call-outs to calls and evaluates the invariants
 // and the linearizability check.
@@ -510,22 +508,6 @@ func decodeLive(s string) []int {
 		out = append(out, n)
 	}
 	return out
-}
-
-func sameSet(a, b []int) bool {
-	if len(a) != len(b) {
-		return false
-	}
-	x := append([]int(nil), a...)
-	y := append([]int(nil), b...)
-	sort.Ints(x)
-	sort.Ints(y)
-	for i := range x {
-		if x[i] != y[i] {
-			return false
-		}
-	}
-	return true
 }
 
 func c20Linearizable(res *core.Result, w *workload.SubWorld, pre []int, all []*c20Call) {
